@@ -118,10 +118,10 @@ def run_names(ctx: Ctx, vocab) -> list[str]:
     ids = list(dict.fromkeys(ids))
     full = ids[:12] + [i for i in ids if i in (COL_A, COL_B, "", "x'; DROP TABLE y; --", "1app", "应用")]
     full = list(dict.fromkeys(full))
-    exprs = [f"prefix sha256_hex {cstr(i)}" for i in ids] + [f"all_tables sha256_hex {cstr(i)}" for i in full]
-    vals = ctx.coq_eval(IMPORTS, exprs, chunk=40)
-    m_prefix = {i: pystr(v) for i, v in zip(ids, vals[:len(ids)])}
-    m_tables = {i: [pystr(n) for n in v] for i, v in zip(full, vals[len(ids):])}
+    vals = ctx.coq_eval(IMPORTS, [f"prefix sha256_hex {cstr(i)}" for i in ids], chunk=max(8, len(ids) // 12 + 1))
+    vals2 = ctx.coq_eval(IMPORTS, [f"({memo_digest([i])}all_tables Hm {cstr(i)})" for i in full], chunk=6)
+    m_prefix = {i: pystr(v) for i, v in zip(ids, vals)}
+    m_tables = {i: [pystr(n) for n in v] for i, v in zip(full, vals2)}
     by_prefix: dict[str, str] = {}
     classes = {}
     n_bad = 0
@@ -137,7 +137,7 @@ def run_names(ctx: Ctx, vocab) -> list[str]:
         elif real != m_prefix[i]:
             ctx.violation("model-mismatch:prefix", f"sanitize_table_prefix({i!r}) = {real!r}, model {m_prefix[i]!r}",
                           {"kind": "prefix", "id": i, "observed": real, "model": m_prefix[i]})
-        if real in by_prefix and {i, by_prefix[real]} != {COL_A, COL_B}:
+        if real in by_prefix and {i, by_prefix[real]} != {COL_A, COL_B} and sum(v["key"].startswith("prefix-collision") for v in ctx.violations) < 3:
             ctx.violation("prefix-collision:" + json.dumps(sorted([i, by_prefix[real]])).replace(" ", ""),
                           f"ids {by_prefix[real]!r} and {i!r} get the same table prefix {real!r}",
                           {"kind": "apps", "backend": "sqlite", "ids": [by_prefix[real], i],
@@ -156,6 +156,8 @@ def run_names(ctx: Ctx, vocab) -> list[str]:
         if real_names != m_tables[i] and IDENT.match(sanitize_table_prefix(i) or ""):
             ctx.violation("model-mismatch:tables", f"table names of {i!r}: real {real_names[:3]}..., model {m_tables[i][:3]}...",
                           {"kind": "prefix", "id": i, "observed": real_names, "model": m_tables[i]})
+    gen_guard(ctx)
+    ctx.log(f"names: {len(ids)} ids compared")
     ctx.count(len(ids) + len(full), len(ids))
     ctx.notes["names"] = {"ids": len(ids), "full_table_lists_compared": len(full), "id_classes": classes,
                           "non_identifier_prefixes": n_bad, "distinct_prefixes": len(by_prefix)}
@@ -227,6 +229,8 @@ def run_purge_selection(ctx: Ctx, scratch: str, vocab) -> None:
                           f"delete_tables_with_prefix({p!r}) emptied {len(emptied)} tables, model selects {len(model)}; differing: {diff}",
                           {"kind": "selection", "prefix": p, "names": diff, "observed": [n for n in diff if n in emptied]})
     con.close()
+    gen_guard(ctx)
+    ctx.log(f"purge selection: {len(prefixes)} prefixes x {len(names)} names compared")
     ctx.count(len(prefixes) * len(names), len(prefixes))
     ctx.notes["purge_selection"] = {"prefixes": len(prefixes), "table_names": len(names), "selected_total": hits,
                                     "selected_not_literally_prefixed": cross}
@@ -416,6 +420,10 @@ def run_case(ctx: Ctx, scratch: str, kind: str, ids: list[str], ops: list, vocab
                     print(f"  step {step} {op}: app {v} ({ids[v]!r}) changes: {d[:3]}")
                 if d:
                     key = classify(apps, op, v, vocab)
+                    if key not in ctx._known and sum(x["key"].split(":")[0] == key.split(":")[0] for x in ctx.violations) >= 3 \
+                            and not any(x["key"] == key for x in ctx.violations):
+                        ctx.notes["further_violations_not_listed"] = ctx.notes.get("further_violations_not_listed", 0) + 1
+                        continue
                     ctx.violation(key, f"{kind}: operation {op} of app {ids[op[1]]!r} changed what app {ids[v]!r} observes: {d[0]}",
                                   dict(replay, at=step, victim=v, key=key))
             if kind == "sqlite":
@@ -493,6 +501,16 @@ def gen_cases(ctx: Ctx, ids: list[str], vocab):
     return cases
 
 
+def memo_digest(ids: list[str]) -> str:
+    """`let Hm := ...` : sha256_hex with the digests of the listed ids computed once (vm_compute is call-by-value);
+    extensionally the same function, so the evaluated term is the model's."""
+    out = "".join(f"let h{k} := sha256_hex {cstr(i)} in " for k, i in enumerate(ids))
+    body = "sha256_hex s"
+    for k in reversed(range(len(ids))):
+        body = f"if str_eqb s {cstr(ids[k])} then h{k} else {body}"
+    return out + f"let Hm := (fun s : list N => {body}) in "
+
+
 def model_expr(ids: list[str], ops: list, vocab) -> str:
     sufs = dict(vocab)
     mops = []
@@ -509,7 +527,7 @@ def model_expr(ids: list[str], ops: list, vocab) -> str:
             mops += [f"OPurge {i} {cstr(c)}" for c in ("broker", "orchestrator", "state_backend", "client", "trg")]
         else:
             raise ValueError(op)
-    return ("(let d := run sha256_hex gen_purge [] [" + "; ".join(mops) + "] in map (fun b => view sha256_hex b d) ["
+    return ("(" + memo_digest(ids) + "let d := run Hm gen_purge [] [" + "; ".join(mops) + "] in map (fun b => view Hm b d) ["
             + "; ".join(cstr(i) for i in ids) + "])")
 
 
@@ -518,6 +536,8 @@ def run_apps(ctx: Ctx, scratch: str, ids: list[str], vocab) -> None:
     low = [(f, o) for f, o, is_low in cases if all(op[0] in ("write", "purge", "purge_all") for op in o)]
     ctx.log(f"app cases: {len(cases)} ({len(low)} compared with the model row by row)")
     model = ctx.coq_eval(IMPORTS, [model_expr(f, o, vocab) for f, o in low], chunk=max(1, len(low) // 14 + 1))
+    gen_guard(ctx)
+    ctx.log("model rows evaluated")
     model_by = {json.dumps([f, o]): m for (f, o), m in zip(low, model)}
     n_ops = 0
     hist = {"apps2": 0, "apps3": 0, "ops": {}, "interfering_cases": 0}
@@ -557,10 +577,42 @@ def classify_prefix_equal(a: str, b: str) -> bool:
     return sanitize_table_prefix(a) == sanitize_table_prefix(b)
 
 
+def search_collision(ctx: Ctx, scratch: str, vocab, limit: int) -> None:
+    """Model-guided search used when the hash part got weaker than the theorems need (or the proofs broke):
+    birthday search over punctuation variants with the REAL sanitize_table_prefix; a colliding pair is then
+    run as two real apps (the oracle reports it)."""
+    import itertools
+    from pynenc.util.sqlite_utils import sanitize_table_prefix
+    seen: dict[str, str] = {}
+    tried = 0
+    for t in itertools.product("-.:+", repeat=9):
+        i = "svc" + "".join(t)
+        p = sanitize_table_prefix(i)
+        tried += 1
+        if p in seen:
+            ctx.notes["collision_search"] = {"tried": tried, "found": [seen[p], i]}
+            if {seen[p], i} != {COL_A, COL_B}:
+                run_case(ctx, scratch, "sqlite", [seen[p], i], [["write", 0, "client"], ["rewrite", 1], ["purge", 0, "client"]], vocab, "search")
+            return
+        seen[p] = i
+        if tried >= limit:
+            break
+    ctx.notes["collision_search"] = {"tried": tried, "found": None}
+
+
+def gen_guard(ctx: Ctx) -> None:
+    """coq/gen is shared by concurrent runs: a model value is only used if the generated file is still ours."""
+    from harness.common import COQ, CheckError
+    if open(os.path.join(COQ, "gen/Sanitize_gen.v")).read() != ctx.notes.get("_gen_text"):
+        raise CheckError("coq/gen/Sanitize_gen.v was rewritten by a concurrent run (different source tree); re-run")
+
+
 # ---------------------------------------------------------------- main / replay
 def main(ctx: Ctx) -> int:
     world.quiet()
     info = ctx.translate("sanitize", tr.translate, "gen/Sanitize_gen.v")
+    from harness.common import COQ
+    ctx.notes["_gen_text"] = open(os.path.join(COQ, "gen/Sanitize_gen.v")).read()
     try:
         vocab = tr.parse_repo(os.environ.get("VERIF_REPO", "/repo"))["vocab"]
     except Exception:  # noqa: BLE001 - degraded translator: the committed default vocabulary
@@ -571,8 +623,12 @@ def main(ctx: Ctx) -> int:
         ids = run_names(ctx, vocab)
         run_purge_selection(ctx, scratch, vocab)
         run_apps(ctx, scratch, ids, vocab)
+        gen_guard(ctx)
+        if not ctx.proof.ok or info.get("degraded") or info.get("hash_len", 8) < 8:
+            search_collision(ctx, scratch, vocab, 1 << 18)
     finally:
         world.rm_scratch(scratch)
+    del ctx.notes["_gen_text"]
     ctx.notes["purge_rule_of_this_tree"] = info.get("purge", "unknown (translator degraded)")
     ctx.assumptions += [
         "ids are Python str without lone surrogates (str.encode() rejects those before any table is named)",
